@@ -599,6 +599,11 @@ int verif_proxy::run_force_callback()
   f.reset();
   for (size_t i = 0; i < f.size(); i++) f[int(i)] = cb_force * double(i + 1);
   cv->add_bias_force(f);
+  if (!cb_energy.empty()) {
+    // as a scripted-force procedure would do: through the script interface
+    unsigned char *argv[3] = {(unsigned char *) "cv", (unsigned char *) "addenergy", (unsigned char *) cb_energy.c_str()};
+    if (run_colvarscript_command(3, argv) != COLVARS_OK) return COLVARS_ERROR;
+  }
   return COLVARS_OK;
 }
 
